@@ -79,8 +79,11 @@ def attn_vc(kind, T, D, Dv):
                            "float arithmetic treated as real arithmetic (0 * finite = 0; inf/NaN replacement values are outside the claim)", "sequence dimension 0, un-batched query (shapes bounded)"])
 
 
-def attn_p_vc():
-    """P rung: sequence length T, key size D and value size Dv SYMBOLIC (dot-product attention, sequence dimension 0, un-batched).
+def attn_p_vc(flavour=None):
+    """`flavour` = None: DotProductSoftAttention with its own score function. Otherwise the named subclass of GlobalSoftAttention with
+    `score` under CONTRACT (called on the query and key given, returns ANY real scores of the key's shape without its last
+    dimension): the inherited forward is then verified for every score function, i.e. for every flavour that inherits it.
+    P rung: sequence length T, key size D and value size Dv SYMBOLIC (dot-product attention, sequence dimension 0, un-batched).
     The weighted sum and the softmax have the assumed partial-sum contracts of vf/pyvc/symtensor.py. For a skolem coordinate d0 and
     ANY bounds lo <= every kept value <= hi at that coordinate:  lo <= out[d0] <= hi  - by the induction
     lo * W(j) <= S(j) <= hi * W(j) over the sequence index (base / step obligations), W(T) = 1 because a position is kept."""
@@ -115,11 +118,19 @@ def attn_p_vc():
 
         I.contracts["pydrobert.torch._compat.broadcast_shapes"] = bshapes
         I.stubs["torch.functional.broadcast_shapes"] = lambda I2, *shapes: bshapes(I2, shapes, {})
-        obj = ip.SObj(A.DotProductSoftAttention, {"query_size": D, "key_size": D, "dim": 0, "scale_factor": SCALE}, "attn")
+        obj = ip.SObj(getattr(A, flavour or "DotProductSoftAttention"), {"query_size": D, "key_size": D, "dim": 0, "scale_factor": SCALE}, "attn")
         q = stn.ST((D,), lambda d: Q(ip.to_z3(d)), "float")
         k = stn.ST((T, D), lambda t, d: K(ip.to_z3(t), ip.to_z3(d)), "float")
         v = stn.ST((T, DV), lambda t, d: V(ip.to_z3(t), ip.to_z3(d)), "float")
         mask = stn.ST((T,), lambda t: KEEP(ip.to_z3(t)), "bool")
+        if flavour is not None:
+            SC = z3.Function("score", z3.IntSort(), z3.RealSort())
+
+            def score_contract(I2, a, kw):
+                I2.ex.oblige("score.called_on_the_query_and_key", z3.BoolVal(len(a) == 3 and a[1] is q and a[2] is k and not kw))
+                return stn.ST((T,), lambda t: SC(ip.to_z3(t)), "float")
+
+            I.contracts["%s.score" % flavour] = score_contract
         out = I.call(I.getattr(obj, "forward"), [q, k, v, mask], {})
         sm = I.ex.ghost["softmaxes"][-1]
         ws = [x for x in I.ex.ghost["sums"] if x.get("kind") == "sum"][-1]  # the weighted sum over the sequence
@@ -146,7 +157,7 @@ def attn_p_vc():
                 ("output_between_the_bounds_of_the_kept_values", z3.And(LO <= o, o <= HI))]
 
     pre = [T >= 1, D >= 0, DV >= 1, 0 <= D0, D0 < DV, 0 <= T0, T0 < T, KEEP(T0), z3.ForAll([t_], bounded_at(t_))]
-    return VC("C20.P.convex", "DotProductSoftAttention.forward[symbolic T, D, Dv]", M, "GlobalSoftAttention.forward", thunk, pre=pre, posts=[("masked_convex_combination", post)],
+    return VC("C20.P.convex", "%s.forward[symbolic T, D, Dv%s]" % (flavour or "DotProductSoftAttention", "; ANY score function" if flavour else ""), M, "GlobalSoftAttention.forward", thunk, pre=pre, posts=[("masked_convex_combination", post)],
               inputs={"T": T, "D": D, "Dv": DV}, timeout_ms=30000,
               assumptions=["sum over a symbolic extent = partial sums (assumed contract); softmax over a symbolic extent: weights >= 0, 0 at -inf scores, partial sums reaching 1 when some score is finite (assumed contract)",
                            "the induction over the sequence index is applied outside the solver (base and step are obligations)",
@@ -260,7 +271,7 @@ def blind_p_vc():
 
 
 def p_vcs(ctx):
-    return [attn_p_vc(), blind_p_vc()]
+    return [attn_p_vc(), attn_p_vc("GeneralizedDotProductSoftAttention"), attn_p_vc("ConcatSoftAttention"), blind_p_vc()]
 
 
 def vcs(ctx):
